@@ -118,8 +118,18 @@ class Harness(object):
         config = config or {}
         self.config = config
         # (values: start from these settings as they are - a plugin that has never seen any others)
-        self.values = settings_from_config(config) if values is None else copy.deepcopy(values)
         self.plugin = ExcludeRegionPlugin()
+        if values is None:
+            # what the configuration does not name comes from the plugin's own defaults, as on a fresh installation (the oracles
+            # expect the documented defaults: both options off, the five deferred codes, ExcludeRegion on / off)
+            self.values = settings_from_config(config)
+            defaults = copy.deepcopy(self.plugin.get_settings_defaults())
+            for cfg_key, key in (("at", "atCommandActions"), ("ext", "extendedExcludeGcodes"),
+                                 ("clear_after_print", "clearRegionsAfterPrintFinishes"), ("may_shrink", "mayShrinkRegionsWhilePrinting")):
+                if config.get(cfg_key) is None and key in defaults:
+                    self.values[key] = defaults[key]
+        else:
+            self.values = copy.deepcopy(values)
         self.plugin._settings = StubSettings(self.values)            # pylint: disable=protected-access
         self.pm = PluginManager()
         self.plugin._plugin_manager = self.pm                          # pylint: disable=protected-access
